@@ -51,6 +51,8 @@ def gen_case(rng, allow_big=True):
     big_base = 250000
     for c in chans:
         d = 0 if zero_all else delay_value(rng, SR)
+        if not zero_all and rng.random() < 0.04:
+            d = float(Fraction(1) / Fraction(SR))            # exactly one sample: the second known finding (1-sample pre-padding)
         if big:
             d = float(Fraction(big_base + 4 * chans.index(c) + rng.choice([0, 2])) / Fraction(SR))      # pairwise different
         redeclared = rng.random() < 0.3
@@ -92,6 +94,13 @@ def oracle(case, impl):
                if isinstance(v, lang.Err) and v.cls == "SegmentDurationError"]
         if bad:
             return [f"[KF:one-sample-post-padding] {', '.join(bad)} raised SegmentDurationError for delays (in samples) {d}"]
+    # known finding: a blueprint channel delayed by exactly one sample (the prepended waituntil is 1 sample long)
+    kf2 = any(d[c] == 1 and case["kinds"][c] == "bp" for c in d)
+    if kf2:
+        bad = [nm for nm, v in (("forge", delayed), ("outputForAWGFile", awg), ("outputForSEQXFile", sx))
+               if isinstance(v, lang.Err) and v.cls == "SegmentDurationError"]
+        if bad:
+            return [f"[KF:one-sample-pre-padding] {', '.join(bad)} raised SegmentDurationError for delays (in samples) {d}"]
     if isinstance(plain, lang.Err) or isinstance(delayed, lang.Err):
         return [f"forge raised on a consistent sequence with non-negative whole-sample delays {d}: {lang.short(plain, 60)} / {lang.short(delayed, 60)}"]
     for pos in plain:
